@@ -125,7 +125,7 @@ fn reserve_contract(pre: (Repr, Ghost)) {
     reserve_post(&r, &f, add, res);
 }
 
-// @harness name=reserve_heap_unique hist=yes props=C01,C02,C03,C05,C06,C11,C12 class=U tier=quick big=yes
+// @harness name=reserve_heap_unique nodebug=quick hist=yes props=C01,C02,C03,C05,C06,C11,C12 class=U tier=quick big=yes
 #[kani::proof]
 #[kani::stub(alloc::alloc::alloc, v_alloc)]
 #[kani::stub(alloc::alloc::dealloc, v_dealloc)]
@@ -134,7 +134,7 @@ fn reserve_heap_unique() {
     reserve_contract(any_heap_rc(MAX_CAP, true));
 }
 
-// @harness name=reserve_heap_shared hist=yes props=C01,C02,C03,C05,C06,C11,C12 class=U tier=quick big=yes
+// @harness name=reserve_heap_shared nodebug=thorough hist=yes props=C01,C02,C03,C05,C06,C11,C12 class=U tier=quick big=yes
 #[kani::proof]
 #[kani::stub(alloc::alloc::alloc, v_alloc)]
 #[kani::stub(alloc::alloc::dealloc, v_dealloc)]
@@ -153,7 +153,7 @@ fn reserve_heap_reach() {
     reserve_contract(any_heap(REACH_CAP));
 }
 
-// @harness name=reserve_static hist=yes props=C01,C03,C05,C06,C09,C10,C11,C12 class=U tier=quick big=yes
+// @harness name=reserve_static nodebug=thorough hist=yes props=C01,C03,C05,C06,C09,C10,C11,C12 class=U tier=quick big=yes
 #[kani::proof]
 #[kani::stub(alloc::alloc::alloc, v_alloc)]
 #[kani::stub(alloc::alloc::dealloc, v_dealloc)]
@@ -172,7 +172,7 @@ fn reserve_static_reach() {
     reserve_contract(any_static(REACH_CAP));
 }
 
-// @harness name=reserve_inline hist=yes props=C01,C03,C05,C06,C09,C11,C12 class=U tier=quick
+// @harness name=reserve_inline nodebug=thorough hist=yes props=C01,C03,C05,C06,C09,C11,C12 class=U tier=quick
 #[kani::proof]
 #[kani::stub(alloc::alloc::alloc, v_alloc)]
 #[kani::stub(alloc::alloc::dealloc, v_dealloc)]
@@ -259,7 +259,7 @@ fn ensure_modifiable_contract(pre: (Repr, Ghost)) {
     ensure_modifiable_post(&r, &f, res);
 }
 
-// @harness name=ensure_modifiable_heap_unique hist=yes props=C01,C02,C03,C05 class=U tier=quick big=yes
+// @harness name=ensure_modifiable_heap_unique nodebug=thorough hist=yes props=C01,C02,C03,C05 class=U tier=quick big=yes
 #[kani::proof]
 #[kani::stub(alloc::alloc::alloc, v_alloc)]
 #[kani::stub(alloc::alloc::dealloc, v_dealloc)]
@@ -268,7 +268,7 @@ fn ensure_modifiable_heap_unique() {
     ensure_modifiable_contract(any_heap_rc(MAX_CAP, true));
 }
 
-// @harness name=ensure_modifiable_heap_shared hist=yes props=C01,C02,C03,C05 class=U tier=quick big=yes
+// @harness name=ensure_modifiable_heap_shared nodebug=thorough hist=yes props=C01,C02,C03,C05 class=U tier=quick big=yes
 #[kani::proof]
 #[kani::stub(alloc::alloc::alloc, v_alloc)]
 #[kani::stub(alloc::alloc::dealloc, v_dealloc)]
@@ -358,7 +358,7 @@ fn clone_heap_unique() {
     clone_contract(any_heap_rc(MAX_CAP, true));
 }
 
-// @harness name=clone_heap_shared hist=yes props=C01,C02,C03,C08 class=U tier=quick big=yes
+// @harness name=clone_heap_shared nodebug=thorough hist=yes props=C01,C02,C03,C08 class=U tier=quick big=yes
 #[kani::proof]
 #[kani::stub(alloc::alloc::alloc, v_alloc)]
 #[kani::stub(alloc::alloc::dealloc, v_dealloc)]
@@ -455,7 +455,7 @@ fn replace_inner_contract(pre: (Repr, Ghost)) {
     replace_inner_post(&r, &f, &fo);
 }
 
-// @harness name=replace_inner_heap_unique hist=yes props=C01,C02,C03 class=U tier=quick big=yes
+// @harness name=replace_inner_heap_unique nodebug=quick hist=yes props=C01,C02,C03 class=U tier=quick big=yes
 #[kani::proof]
 #[kani::stub(alloc::alloc::alloc, v_alloc)]
 #[kani::stub(alloc::alloc::dealloc, v_dealloc)]
@@ -464,7 +464,7 @@ fn replace_inner_heap_unique() {
     replace_inner_contract(any_heap_rc(MAX_CAP, true));
 }
 
-// @harness name=replace_inner_heap_shared hist=yes props=C01,C02,C03 class=U tier=quick big=yes
+// @harness name=replace_inner_heap_shared nodebug=thorough hist=yes props=C01,C02,C03 class=U tier=quick big=yes
 #[kani::proof]
 #[kani::stub(alloc::alloc::alloc, v_alloc)]
 #[kani::stub(alloc::alloc::dealloc, v_dealloc)]
@@ -602,7 +602,7 @@ fn shrink_to_contract(pre: (Repr, Ghost)) {
     shrink_to_post(&r, &f, m, res);
 }
 
-// @harness name=shrink_to_heap_unique hist=yes props=C01,C02,C03,C05,C06,C11,C13 class=U tier=quick big=yes
+// @harness name=shrink_to_heap_unique nodebug=quick hist=yes props=C01,C02,C03,C05,C06,C11,C13 class=U tier=quick big=yes
 #[kani::proof]
 #[kani::stub(alloc::alloc::alloc, v_alloc)]
 #[kani::stub(alloc::alloc::dealloc, v_dealloc)]
@@ -611,7 +611,7 @@ fn shrink_to_heap_unique() {
     shrink_to_contract(any_heap_rc(MAX_CAP, true));
 }
 
-// @harness name=shrink_to_heap_shared hist=yes props=C01,C02,C03,C05,C06,C11,C13 class=U tier=quick big=yes
+// @harness name=shrink_to_heap_shared nodebug=thorough hist=yes props=C01,C02,C03,C05,C06,C11,C13 class=U tier=quick big=yes
 #[kani::proof]
 #[kani::stub(alloc::alloc::alloc, v_alloc)]
 #[kani::stub(alloc::alloc::dealloc, v_dealloc)]
